@@ -224,17 +224,27 @@ bool ossOperationsFacet::SaveOperationResult(
 ) {
   auto& opHandle = operations.at(pid);
   assert(opHandle != nullptr);
-  const auto guard = core.DndGuard();
-  if (!core.Src().InputData(pid, std::move(opResult.value))) {
+  const auto oldCoreHash = core.Src()(pid)->coreHash;
+  bool dataSaved = false;
+  {
+    // Note: only the write itself is guarded; announcements made while the children are re-checked must be heard
+    const auto guard = core.DndGuard();
+    dataSaved = core.Src().InputData(pid, std::move(opResult.value));
+  }
+  if (!dataSaved) {
     opHandle->broken = true;
     return false;
   } else {
     opHandle->translations = std::move(opResult.translation);
     opHandle->broken = false;
     opHandle->outdated = false;
+    const bool coreChanged = core.Src()(pid)->coreHash != oldCoreHash;
     for (const auto& child : core.Graph().ChildrenOf(pid)) {
       const auto index = core.Graph().ParentIndex(pid, child).value(); // NOLINT(bugprone-unchecked-optional-access)
       UpdateChild(child, index, old2New);
+      if (coreChanged) {
+        operations.at(child)->outdated = true; // the guard above kept OnCoreChange from doing it
+      }
     }
     return true;
   }
